@@ -87,6 +87,14 @@ func genTree(rng *rand.Rand, root string, big bool) map[string]treeEnt {
 		}
 	}
 	rec("", 0)
+	// a symbolic link whose target lies in a directory that comes later in the archive
+	// (entries are written in walk order): the link is restored before its target exists
+	if rng.Intn(2) == 0 {
+		out["zz-late"] = treeEnt{kind: 'd', mode: 0o755}
+		out["zz-late/target.txt"] = treeEnt{kind: 'f', mode: 0o644, data: []byte("forward target")}
+		out["aa-early"] = treeEnt{kind: 'l', target: "zz-late/target.txt"}
+		out["mm-missing"] = treeEnt{kind: 'l', target: "no-such-dir/file"} // dangling, parent never created
+	}
 	// materialise: directories first
 	var paths []string
 	for p := range out {
